@@ -73,6 +73,10 @@ P('C15','table agreement over the flag registrations (AST + types), ordering/con
   "Decides structurally: every flag's default is the default of the very field it sets (frozen reasoned exceptions), no variable is bound twice and names are unique case-insensitively; the command line is parsed and marked first, the fallback pass skips marked flags, consults the environment (prefixes FABIO_ then plain, upper-cased names) before the properties, and every source marks, assigns through FlagSet.Set and stops; Split/Index uses reachable from config.Load are guarded; int options reaching an allocation size, channel capacity or status code are range-checked in load or clamped at the use; constructors' nil results are not used after a merely logged error in start-up code. Equality of the resulting Config across sources for every value is flag.Value.Set's behaviour and not decided.",
   COMMON_NOTE)
 
+P('C20','compiler bounds report (every check the prove pass cannot eliminate) matched against checker rules and a reviewed residual table, partial-operation guards, value-flow rule for UTC normalisation, table agreement (documentation vs. fields table vs. named formats), ordering/typestate of the pooled buffer, who-may-access rule for the response writer',
+  "Decides structurally that logging cannot disturb a request and reports UTC: every compiler-unproved bounds check on the logging/formatter path is discharged by a guard rule or a reviewed per-symbol reason (anything new is reported), no other panic source exists there, all calendar fields with a fixed UTC suffix come from UTC() times, documented fields exist and the named formats use only known fields, ServeHTTP logs exactly once after the response with the event fully populated, package logger cannot reach the response writer, and the pooled buffer/ shared writer are used in order and under the mutex. Agreement of the hand-written formatters with strconv/fmt/time on every value is numeric/string equality over value domains and not decided.",
+  COMMON_NOTE)
+
 checks=[]; na=[]
 for p in props:
     id=p['id']
